@@ -58,11 +58,26 @@ class ParseMCNPCell:
         self.cell_cache_path = cell_cache_path
         self.lattice_params = lattice_params.copy()
         self.importances = self.parse_importance_cards()
+        self.check_cell_parameter_cards()
         self.transforms = get_mcnp_transforms(self.mcnp_parser)
         for transform in self.transforms.values():
             if len(transform) == 13 and int(transform[-1]) != 1:
                 raise NotImplementedError('affine transformations with m!=1 '
                                           'are not supported yet')
+
+    def check_cell_parameter_cards(self):
+        '''Refuse the cell parameters that are given as data cards (one entry
+        per cell) and that the conversion would otherwise silently ignore.'''
+        for card in self.mcnp_parser.cards(blocks='d', skipcomments=True):
+            mnemonic = card.parts()[1].split()
+            if not mnemonic:
+                continue
+            name = mnemonic[0].lower().lstrip('*').rstrip('=')
+            if name in ('u', 'fill', 'lat', 'trcl'):
+                msg = (f'{name.upper()} data cards are not supported yet; '
+                       f'please use the {name.upper()} keyword on the cell '
+                       'cards instead')
+                raise NotImplementedError(msg)
 
     def parse_importance_cards(self):
         '''Parse any importance cards and return the maximum importance value
